@@ -160,6 +160,87 @@ def replay_life_chunk(idx, hists):
     return part
 
 
+# ---- a caller-owned array shared by successive models (GlobalCaches.tla, group "buffer") ----------
+BUF = [np.array([[2.0, 0.5], [1.5, 1.0]]), np.array([[4.0, -1.0], [0.25, 3.0]])]      # two contents, neither symmetric
+RVEC = np.array([1.0, -2.0])
+XPT = np.array([0.7, -0.3])
+
+
+def buffer_replay(h):
+    """-> None or (site, observable, detail)."""
+    import optyx
+    from optyx.core import autodiff, compiler
+    from optyx.core.matrices import quadratic_form
+    buf = BUF[0].copy()
+    ver = 0
+    models = {}
+    fresh = set()
+    for i, (kind, o) in enumerate(h):
+        if kind == 'BuildQF':
+            x = optyx.VectorVariable('x', 2, lb=-5, ub=5)
+            models[o] = (x, quadratic_form(x, buf) - RVEC @ x)
+            fresh.add(o)
+        elif kind == 'Mutate':
+            ver = 1 - ver
+            buf[:] = BUF[ver]            # refreshed in place (rolling horizon): models built from now on see the new matrix
+            fresh.clear()
+        else:
+            x, e = models[o]
+            if o not in fresh:
+                # the array was refreshed under this model: the caller's own aliasing, exercised but not judged
+                try:
+                    autodiff.gradient(e, x[0])
+                    autodiff.compile_hessian(e, list(x))(XPT.copy())
+                except Exception:
+                    pass
+                continue
+            Q = BUF[ver]
+            want_g = (Q + Q.T) @ XPT - RVEC
+            want_H = Q + Q.T
+            vals = {x[0].name: float(XPT[0]), x[1].name: float(XPT[1])}
+            got_sym = np.array([float(np.asarray(autodiff.gradient(e, v).evaluate(vals))) for v in x])
+            got_c = np.asarray(compiler.compile_gradient(e, list(x))(XPT.copy()), dtype=float).reshape(-1)
+            got_j = np.asarray(autodiff.compile_jacobian([e], list(x))(XPT.copy()), dtype=float).reshape(-1)
+            got_H = np.asarray(autodiff.compile_hessian(e, list(x))(XPT.copy()), dtype=float)
+            for what, have, want in (('gradient()', got_sym, want_g), ('compile_gradient', got_c, want_g), ('compile_jacobian', got_j, want_g), ('compile_hessian', got_H, want_H)):
+                if not np.allclose(have, want, rtol=1e-10, atol=1e-12):
+                    before = sorted(set(k + ('' if k == 'Mutate' else str(a)) for k, a in h[:i]))
+                    return ('GradQF(%s) after {%s}' % (o, ','.join(before)), '%s of a form over a shared array does not use the array\'s current content' % what,
+                            {'history': ' ; '.join('%s(%s)' % (k, a) if k != 'Mutate' else 'Mutate' for k, a in h), 'step': i, 'got': np.asarray(have).tolist(), 'expected': np.asarray(want).tolist()})
+    return None
+
+
+def replay_buffer_chunk(idx, hists):
+    part = {'violations': {}, 'counts': {}, 'evaluations': 0, 'traces_validated_against_impl': 0, 'nontrivial': set(),
+            'samples': [], 'extra': {}}
+    for h in hists:
+        r = buffer_replay(h)
+        part['evaluations'] += len(h)
+        part['traces_validated_against_impl'] += 1
+        part['nontrivial'].add(str(h))
+        if r:
+            pviolation(part, r[0], r[1], r[2])
+        if len(part['samples']) < 1:
+            part['samples'].append({'history': str(h)})
+    return part
+
+
+def buffer_histories(report):
+    wd = tlc.workdir()
+    try:
+        r = tlc.run('GlobalCaches', cfg='GlobalCachesBuf', wd=wd, dump=True)
+        report.add_tlc(r)
+        hs = set()
+        for txt in tlaparse.iter_states(r.dump):
+            h = tuple(tuple(x) for x in tlaparse.parse_state(txt)['hist'])
+            if h and h[-1][0] == 'GradQF':
+                hs.add(h)
+    finally:
+        tlc.cleanup(wd)
+    report.extra['buffer_histories_in_model'] = len(hs)
+    return [list(h) for h in sorted(hs)]
+
+
 def name(i):
     return {1: "M's parameter p", 2: "M's variable x", 3: "M's expression p*x + x**2", 4: "N's parameter p", 5: "N's variable x", 6: "N's expression p*x - x"}[i]
 
@@ -283,6 +364,8 @@ def run(report, tier):
         report.merge(part)
     for part in histrun.parallel(replay_life_chunk, life, chunk=8):
         report.merge(part)
+    for part in histrun.parallel(replay_buffer_chunk, buffer_histories(report), chunk=20):
+        report.merge(part)
     return report.finish(
         rule='GlobalCaches.tla (compile and gradient LRUs, capacity 2, leaves equal by name, bare parameters bypass the cache) model-checked '
              'exhaustively for C14_NoCrossTalk. Every history of cache operations of the model (compile / gradient-compile on two models M and N '
@@ -292,5 +375,7 @@ def run(report, tier):
              'seeded sample of those with fillers. Object lifetime (group "life" of the same module, C14_DegreeOwn): every history of Build / '
              'Degree / Drop / FillDeg over a quadratic and a linear model in which a degree is asked after some model was dropped is replayed with '
              'deep (>= 400 levels, iterative path) and shallow loop-built objectives allocated so that a later model reuses the addresses of a '
-             'collected one; compute_degree of every prefix node, is_linear and .degree must be the expression\'s own.',
+             'collected one; compute_degree of every prefix node, is_linear and .degree must be the expression\'s own. Shared caller-owned array (group "buffer", '
+             'C14_BufferCurrent): every history of BuildQF / Mutate (in-place refresh) / GradQF over two models built on one NumPy buffer; gradient, '
+             'compiled gradient / Jacobian / Hessian of each form must be those of the buffer\'s current content.',
         exhaustive=False)
